@@ -140,6 +140,8 @@ class SocketSpawn(SpawnBase):
                 if s == b'':
                     self.flag_eof = True
                     raise EOF("Socket closed")
-                return s
         except (socket.timeout, BlockingIOError):
             raise TIMEOUT("Timeout exceeded.")
+        s = self._decoder.decode(s, final=False)
+        self._log(s, 'read')
+        return s
